@@ -50,6 +50,8 @@ func extNegatedMatcher(pat string, groups []pattern.NegExtGlobGroup) (func(strin
 	if pattern.HasMeta(prefix, 0) || pattern.HasMeta(suffix, 0) {
 		return nil, fmt.Errorf("extglob !(...) is only supported with a fixed prefix and suffix")
 	}
+	// What they match is themselves with the escapes removed, like "a*" for `a\*`.
+	prefix, suffix = UnescapePattern(prefix), UnescapePattern(suffix)
 
 	// Use @(inner) to compile the pattern list, then negate the match.
 	inner := pat[g.Start+len("!(") : g.End-len(")")]
@@ -74,4 +76,20 @@ func extNegatedMatcher(pat string, groups []pattern.NegExtGlobGroup) (func(strin
 
 		return !rx.MatchString(middle)
 	}, nil
+}
+
+// UnescapePattern removes the backslash escapes from a pattern without any
+// metacharacters, as per [pattern.HasMeta], giving the only string it matches.
+func UnescapePattern(pat string) string {
+	if !strings.Contains(pat, `\`) {
+		return pat
+	}
+	var sb strings.Builder
+	for i := 0; i < len(pat); i++ {
+		if pat[i] == '\\' && i+1 < len(pat) {
+			i++
+		}
+		sb.WriteByte(pat[i])
+	}
+	return sb.String()
 }
